@@ -304,3 +304,36 @@ package composite
 //@ props C10
 //@ sweep
 
+
+// C12 (XR side): with the Manual policy and a revision already referenced, the XR fetches that
+// revision and its reference is not touched; otherwise it moves to LatestRevision of exactly the
+// revisions listed for its Composition, and that list is restricted by the composition-name
+// label plus - for the Automatic policy - the XR's revision selector and nothing else.
+
+//@ func (*composite.APIRevisionFetcher).Fetch
+//@ props C12
+//@ requires f != nil && cr != nil
+//@ let $rl = result (*composite.APIRevisionFetcher).getCompositionRevisionList
+//@ let $latest = result v1.LatestRevision
+//@ site *.GetCompositionUpdatePolicy($x)
+//@   bind $manual = result != nil && *result == "Manual"
+//@ site (*composite.APIRevisionFetcher).getCompositionRevisionList(_, _, $x, $c)
+//@   assert [C12:revisions-listed-for-this-xr-and-its-composition] $x == cr && $c == comp
+//@ site v1.LatestRevision($c, $revs)
+//@   assert [C12:latest-among-the-listed-revisions] $revs == $rl.Items
+//@ site *.SetCompositionRevisionReference(_, $ref)
+//@   assert [C12:xr-moves-to-the-latest-listed-revision] $ref != nil && $ref.Name == $latest.GetName()
+//@   assert [C12:manual-policy-keeps-the-referenced-revision] !(current != nil && $manual)
+//@ site (client.Reader).Get(_, _, $key, $obj, $o...) as get-pinned
+//@   where typeis($obj, *v1.CompositionRevision)
+//@   assert [C12:manual-policy-fetches-the-referenced-revision] current != nil && $key.Name == current.Name
+
+//@ macro AUTOSEL(x) = x.GetCompositionUpdatePolicy() != nil && *x.GetCompositionUpdatePolicy() == "Automatic" && x.GetCompositionRevisionSelector() != nil
+//@ func (*composite.APIRevisionFetcher).getCompositionRevisionList
+//@ props C12
+//@ requires f != nil && cr != nil && comp != nil
+//@ site (client.Reader).List(_, _, $l, $opts...)
+//@   assert [C12:listed-for-the-composition] len($opts) == 1 && typeis($opts[0], client.MatchingLabels) && as($opts[0], client.MatchingLabels)["crossplane.io/composition-name"] == comp.GetName()
+//@   assert [C12:automatic-xr-restricted-by-its-revision-selector] AUTOSEL(cr) ==> forall k:Str :: k in cr.GetCompositionRevisionSelector().MatchLabels && k != "crossplane.io/composition-name"
+//@        ==> k in as($opts[0], client.MatchingLabels) && as($opts[0], client.MatchingLabels)[k] == cr.GetCompositionRevisionSelector().MatchLabels[k]
+//@   assert [C12:no-other-restriction] forall k:Str :: k in as($opts[0], client.MatchingLabels) ==> k == "crossplane.io/composition-name" || (AUTOSEL(cr) && k in cr.GetCompositionRevisionSelector().MatchLabels)
